@@ -12,8 +12,12 @@ package main
 import (
 	"encoding/json"
 	"fmt"
+	"go/ast"
+	"go/parser"
+	"go/token"
 	"os"
 	"path/filepath"
+	"sort"
 	"strings"
 )
 
@@ -25,6 +29,82 @@ var syncTargets = []string{
 	"/repo/regattaserver/encoding/gzip/grpc.go",
 	"/repo/regattaserver/encoding/snappy/grpc.go",
 	"/repo/regattaserver/encoding/zstd/grpc.go",
+}
+
+// stmtTargets: functions whose every statement gets a scheduling point (vp.Point("file:line")).
+var stmtTargets = map[string][]string{
+	"/repo/storage/table/fsm/fsm.go":                 {"Lookup", "Update"},
+	"/repo/storage/table/fsm/command.go":             {"Commit", "EnsureIndexed"},
+	"/repo/storage/table/fsm/command_txn.go":         {"handleTxn", "handleTxnOps"},
+	"/repo/storage/table/fsm/query.go":               {"lookup", "rangeLookup", "singleLookup", "iteratorLookup"},
+	"/repo/storage/table/fsm/iter.go":                {"iterate"},
+	"/repo/storage/table/fsm/snapshot_snapshot.go":   {"recover"},
+	"/repo/storage/table/fsm/snapshot_checkpoint.go": {"recover"},
+}
+
+// instrument inserts `vp.Point("base:line"); ` in front of every statement that is an element of a
+// block, case clause or select clause inside the named functions (nested function literals
+// included). Text insertion on the same line: line numbers do not change.
+func instrument(path string, src []byte, funcs []string) ([]byte, int, error) {
+	fset := token.NewFileSet()
+	f, err := parser.ParseFile(fset, path, src, parser.ParseComments)
+	if err != nil {
+		return nil, 0, err
+	}
+	want := map[string]bool{}
+	for _, n := range funcs {
+		want[n] = true
+	}
+	found := map[string]bool{}
+	var offsets []int
+	base := filepath.Base(path)
+	addList := func(list []ast.Stmt) {
+		for _, st := range list {
+			switch st.(type) {
+			case *ast.CaseClause, *ast.CommClause:
+				continue // the body block of a switch/select holds clauses, not statements
+			}
+			offsets = append(offsets, fset.Position(st.Pos()).Offset)
+		}
+	}
+	for _, d := range f.Decls {
+		fd, ok := d.(*ast.FuncDecl)
+		if !ok || fd.Body == nil || !want[fd.Name.Name] {
+			continue
+		}
+		found[fd.Name.Name] = true
+		ast.Inspect(fd.Body, func(n ast.Node) bool {
+			switch x := n.(type) {
+			case *ast.BlockStmt:
+				addList(x.List)
+			case *ast.CaseClause:
+				addList(x.Body)
+			case *ast.CommClause:
+				addList(x.Body)
+			}
+			return true
+		})
+	}
+	for n := range want {
+		if !found[n] {
+			return nil, 0, fmt.Errorf("function %s not found in %s", n, path)
+		}
+	}
+	sort.Sort(sort.Reverse(sort.IntSlice(offsets)))
+	out := append([]byte(nil), src...)
+	for _, off := range offsets {
+		line := fset.Position(fset.File(f.Pos()).Pos(off)).Line
+		ins := fmt.Sprintf("vp.Point(%q); ", fmt.Sprintf("%s:%d", base, line))
+		out = append(out[:off], append([]byte(ins), out[off:]...)...)
+	}
+	// import
+	s := string(out)
+	i := strings.Index(s, "import (")
+	if i < 0 {
+		return nil, 0, fmt.Errorf("no import block in %s", path)
+	}
+	s = s[:i+len("import (")] + " \"github.com/jamf/regatta/verifvp/vp\";" + s[i+len("import ("):]
+	return []byte(s), len(offsets), nil
 }
 
 func fail(f string, a ...any) {
@@ -88,6 +168,46 @@ func main() {
 			fail("%v", err)
 		}
 		ov.Replace[t] = o
+	}
+	// statement-level scheduling points
+	vpSrc := filepath.Join(filepath.Dir(shimSrc), "vp.go.txt")
+	vb, err := os.ReadFile(vpSrc)
+	if err != nil {
+		fail("vp shim: %v", err)
+	}
+	vpOut := filepath.Join(out, "vp.go")
+	if err := os.WriteFile(vpOut, vb, 0o644); err != nil {
+		fail("%v", err)
+	}
+	ov.Replace["/repo/verifvp/vp/vp.go"] = vpOut
+	var targets []string
+	for t := range stmtTargets {
+		targets = append(targets, t)
+	}
+	sort.Strings(targets)
+	total := 0
+	for i, t := range targets {
+		src := t
+		if r, ok := ov.Replace[t]; ok {
+			src = r
+		}
+		b, err := os.ReadFile(src)
+		if err != nil {
+			fail("target %s: %v", t, err)
+		}
+		ib, n, err := instrument(t, b, stmtTargets[t])
+		if err != nil {
+			fail("cannot instrument: %v", err)
+		}
+		total += n
+		o := filepath.Join(out, fmt.Sprintf("stmt%d_%s", i, filepath.Base(t)))
+		if err := os.WriteFile(o, ib, 0o644); err != nil {
+			fail("%v", err)
+		}
+		ov.Replace[t] = o
+	}
+	if os.Getenv("VERIF_VERBOSE") != "" {
+		fmt.Fprintf(os.Stderr, "mkoverlay: %d statement points in %d files\n", total, len(targets))
 	}
 	ob, _ := json.MarshalIndent(ov, "", " ")
 	op := filepath.Join(out, "overlay.json")
